@@ -90,8 +90,10 @@ pub tracked struct Trace {
     /// identity of the actor this trace belongs to
     pub ghost me: TargetId,
     pub ghost inlog: Seq<Ev>,
-    /// latest status word sent to each (peer, kind)
-    pub ghost last: Map<(ActorId, ExecutionKind), Word>,
+    /// latest status word of kind Build / Service sent to each peer (two maps rather than one keyed by
+    /// (peer, kind): a broadcast of one kind then leaves the other map syntactically untouched)
+    pub ghost last_b: Map<ActorId, Word>,
+    pub ghost last_s: Map<ActorId, Word>,
     /// (dest, kind) pairs to which a `Requested` was sent
     pub ghost requested: Set<(ActorId, ExecutionKind)>,
     /// (requester, kind) pairs that ever un-registered (delivered `Unrequested`)
@@ -136,12 +138,19 @@ pub open spec fn msg_id_ok(m: TargetActorOutputMessage, me: TargetId) -> bool {
 impl Trace {
     pub open spec fn sent(self, m: TargetActorOutputMessage) -> Trace {
         Trace {
-            last: match m {
-                TargetActorOutputMessage::MessageActor { dest, msg: ActorInputMessage::Ok { kind, actual, .. } } =>
-                    self.last.insert((dest, kind), Word::Ok { actual, dep_actual: actual_of(self.inlog, kind).len() > 0 }),
-                TargetActorOutputMessage::MessageActor { dest, msg: ActorInputMessage::Invalidated { kind, .. } } =>
-                    self.last.insert((dest, kind), Word::Invalidated),
-                _ => self.last,
+            last_b: match m {
+                TargetActorOutputMessage::MessageActor { dest, msg: ActorInputMessage::Ok { kind: ExecutionKind::Build, actual, .. } } =>
+                    self.last_b.insert(dest, Word::Ok { actual, dep_actual: actual_of(self.inlog, ExecutionKind::Build).len() > 0 }),
+                TargetActorOutputMessage::MessageActor { dest, msg: ActorInputMessage::Invalidated { kind: ExecutionKind::Build, .. } } =>
+                    self.last_b.insert(dest, Word::Invalidated),
+                _ => self.last_b,
+            },
+            last_s: match m {
+                TargetActorOutputMessage::MessageActor { dest, msg: ActorInputMessage::Ok { kind: ExecutionKind::Service, actual, .. } } =>
+                    self.last_s.insert(dest, Word::Ok { actual, dep_actual: actual_of(self.inlog, ExecutionKind::Service).len() > 0 }),
+                TargetActorOutputMessage::MessageActor { dest, msg: ActorInputMessage::Invalidated { kind: ExecutionKind::Service, .. } } =>
+                    self.last_s.insert(dest, Word::Invalidated),
+                _ => self.last_s,
             },
             requested: match m {
                 TargetActorOutputMessage::MessageActor { dest, msg: ActorInputMessage::Requested { kind, .. } } => self.requested.insert((dest, kind)),
@@ -171,9 +180,13 @@ impl Trace {
         }
     }
     pub open spec fn live(self) -> Set<int> { self.spawned.difference(self.waited) }
+    /// the latest-word map of kind `k`
+    pub open spec fn lastk(self, k: ExecutionKind) -> Map<ActorId, Word> {
+        if k == ExecutionKind::Build { self.last_b } else { self.last_s }
+    }
     /// the peer's latest word of kind `k` from this actor is `Ok`
     pub open spec fn told_ok(self, r: ActorId, k: ExecutionKind) -> bool {
-        self.last.contains_key((r, k)) && self.last[(r, k)] is Ok
+        self.lastk(k).contains_key(r) && self.lastk(k)[r] is Ok
     }
     /// nothing was sent, started, spawned or delivered between `self` and `o` except status words / requests
     pub open spec fn same_but_sends(self, o: Trace) -> bool {
@@ -312,11 +325,11 @@ pub open spec fn word_of(msg: ActorInputMessage, log: Seq<Ev>) -> Option<(Execut
     }
 }
 
-/// `l1` is `l0` with the word `w` recorded for every (r, k), r in rs — and nothing else touched
-pub open spec fn bcast_last(l0: Map<(ActorId, ExecutionKind), Word>, l1: Map<(ActorId, ExecutionKind), Word>, rs: Set<ActorId>, k: ExecutionKind, w: Word) -> bool {
-    forall|key: (ActorId, ExecutionKind)| #![trigger l1.contains_key(key)] #![trigger l0.contains_key(key)] #![trigger l1[key]]
-        (l1.contains_key(key) <==> (l0.contains_key(key) || (rs.contains(key.0) && key.1 == k)))
-        && (l1.contains_key(key) ==> l1[key] == (if rs.contains(key.0) && key.1 == k { w } else { l0[key] }))
+/// `l1` is `l0` with the word `w` recorded for every r in rs — and nothing else touched
+pub open spec fn bcast_last(l0: Map<ActorId, Word>, l1: Map<ActorId, Word>, rs: Set<ActorId>, w: Word) -> bool {
+    forall|r: ActorId| #![trigger l1.contains_key(r)] #![trigger l0.contains_key(r)] #![trigger rs.contains(r)]
+        (l1.contains_key(r) <==> (l0.contains_key(r) || rs.contains(r)))
+        && (l1.contains_key(r) ==> l1[r] == (if rs.contains(r) { w } else { l0[r] }))
 }
 
 /// the trace effect of telling the word `w` of kind `k` to every member of `rs`
@@ -325,12 +338,13 @@ pub open spec fn bcast_word(t0: Trace, t1: Trace, rs: Set<ActorId>, k: Execution
     &&& t1.requested == t0.requested && t1.sent_unreq == t0.sent_unreq
     &&& (w is Ok ==> t1.sent_inval == t0.sent_inval)
     &&& t1.n_out == t0.n_out + rs.len()
-    &&& bcast_last(t0.last, t1.last, rs, k, w)
+    &&& bcast_last(t0.lastk(k), t1.lastk(k), rs, w)
+    &&& (k == ExecutionKind::Build ==> t1.last_s == t0.last_s) && (k == ExecutionKind::Service ==> t1.last_b == t0.last_b)
 }
 
 /// the trace effect of asking every dependency for `kind`: nothing but `requested`, `n_out` (and `ids_ok`) moves
 pub open spec fn asked_all(t0: Trace, t1: Trace, h: &TargetActorHelper, kind: ExecutionKind) -> bool {
-    &&& t1.same_but_sends(t0) && t1.last == t0.last && t1.sent_inval == t0.sent_inval && t1.sent_unreq == t0.sent_unreq
+    &&& t1.same_but_sends(t0) && t1.last_b == t0.last_b && t1.last_s == t0.last_s && t1.sent_inval == t0.sent_inval && t1.sent_unreq == t0.sent_unreq
     &&& (t0.ids_ok && h.target_id == t0.me ==> t1.ids_ok)
     &&& forall|d: TargetId| #![trigger h.deps().contains(d)] h.deps().contains(d) ==> t1.requested.contains((ActorId::Target(d), kind))
     &&& forall|key: (ActorId, ExecutionKind)| t0.requested.contains(key) ==> #[trigger] t1.requested.contains(key)
@@ -358,7 +372,7 @@ pub proof fn lemma_sent_to_seq_request(t: Trace, dests: Seq<TargetId>, msg: Acto
     requires !(msg is Ok), !(msg is Invalidated),
     ensures
         sent_to_seq(t, dests, msg).same_but_sends(t),
-        sent_to_seq(t, dests, msg).last == t.last,
+        sent_to_seq(t, dests, msg).last_b == t.last_b && sent_to_seq(t, dests, msg).last_s == t.last_s,
         sent_to_seq(t, dests, msg).sent_inval == t.sent_inval,
         sent_to_seq(t, dests, msg).n_out == t.n_out + dests.len(),
         t.ids_ok && msg_id_ok(TargetActorOutputMessage::MessageActor { dest: ActorId::Root, msg }, t.me) ==> sent_to_seq(t, dests, msg).ids_ok,
@@ -518,7 +532,9 @@ impl TargetActorHelper {
         final(tr).same_but_sends(*old(tr)),
         final(tr).n_out == old(tr).n_out + self.req(kind).len(),
         msg_id_ok(TargetActorOutputMessage::MessageActor { dest: ActorId::Root, msg }, old(tr).me) ==> final(tr).ids_ok == old(tr).ids_ok,
-        word_of(msg, old(tr).inlog) matches Some((k, w)) ==> bcast_last(old(tr).last, final(tr).last, self.req(kind), k, w),
+        word_of(msg, old(tr).inlog) matches Some((k, w)) ==> bcast_last(old(tr).lastk(k), final(tr).lastk(k), self.req(kind), w)
+            && (k == ExecutionKind::Build ==> final(tr).last_s == old(tr).last_s) && (k == ExecutionKind::Service ==> final(tr).last_b == old(tr).last_b),
+        word_of(msg, old(tr).inlog) is None ==> final(tr).last_b == old(tr).last_b && final(tr).last_s == old(tr).last_s,
         word_of(msg, old(tr).inlog) is Some ==> final(tr).requested == old(tr).requested && final(tr).sent_unreq == old(tr).sent_unreq,
         msg is Ok ==> final(tr).sent_inval == old(tr).sent_inval,
 //@pre
@@ -533,7 +549,9 @@ impl TargetActorHelper {
                 tr.same_but_sends(*old(tr)),
                 tr.n_out == old(tr).n_out + it.index@,
                 msg_id_ok(TargetActorOutputMessage::MessageActor { dest: ActorId::Root, msg }, old(tr).me) ==> tr.ids_ok == old(tr).ids_ok,
-                word_of(msg, old(tr).inlog) matches Some((k, w)) ==> bcast_last(old(tr).last, tr.last, it.seq().take(it.index@ as int).unref().to_set(), k, w),
+                word_of(msg, old(tr).inlog) matches Some((k, w)) ==> bcast_last(old(tr).lastk(k), tr.lastk(k), it.seq().take(it.index@ as int).unref().to_set(), w)
+                    && (k == ExecutionKind::Build ==> tr.last_s == old(tr).last_s) && (k == ExecutionKind::Service ==> tr.last_b == old(tr).last_b),
+                word_of(msg, old(tr).inlog) is None ==> tr.last_b == old(tr).last_b && tr.last_s == old(tr).last_s,
                 word_of(msg, old(tr).inlog) is Some ==> tr.requested == old(tr).requested && tr.sent_unreq == old(tr).sent_unreq,
                 msg is Ok ==> tr.sent_inval == old(tr).sent_inval,
 //@loopbody
@@ -595,7 +613,7 @@ impl TargetActorHelper {
 //@contract
     ensures
         *final(tr) == sent_to_seq(*old(tr), self.dependencies@, ActorInputMessage::Unrequested { kind, requester: ActorId::Target(self.target_id) }),
-        final(tr).same_but_sends(*old(tr)), final(tr).last == old(tr).last, final(tr).sent_inval == old(tr).sent_inval,
+        final(tr).same_but_sends(*old(tr)), final(tr).last_b == old(tr).last_b, final(tr).last_s == old(tr).last_s, final(tr).sent_inval == old(tr).sent_inval,
         final(tr).requested == old(tr).requested,
         old(tr).ids_ok && self.target_id == old(tr).me ==> final(tr).ids_ok,
 //@after 0 `self.send_to_dependencies(`
@@ -633,19 +651,48 @@ pub open spec fn count_done(log: Seq<Ev>) -> nat
 
 /// AckInv (DESIGN §7 C04.ack / C01.ok-*): for every peer that never un-registered, its latest word
 /// of kind `k` is `Ok` exactly when this actor is ready for `k` and the peer is registered.
+pub open spec fn ack_c(req: Set<ActorId>, last: Map<ActorId, Word>, unreq: Set<(ActorId, ExecutionKind)>, k: ExecutionKind, ready: bool) -> bool {
+    forall|r: ActorId| #![trigger last.contains_key(r)] #![trigger req.contains(r)]
+        !unreq.contains((r, k)) ==> ((last.contains_key(r) && last[r] is Ok) <==> (ready && req.contains(r)))
+}
 pub open spec fn ack_inv(h: &TargetActorHelper, tr: Trace, k: ExecutionKind, ready: bool) -> bool {
-    forall|r: ActorId| #![trigger tr.last.contains_key((r, k))] #![trigger h.req(k).contains(r)]
-        !tr.unreq.contains((r, k)) ==> (tr.told_ok(r, k) <==> (ready && h.req(k).contains(r)))
+    ack_c(h.req(k), tr.lastk(k), tr.unreq, k, ready)
+}
+/// telling `Invalidated` to every requester re-establishes AckInv for "not ready"
+pub proof fn lemma_ack_bcast_inval(req: Set<ActorId>, l0: Map<ActorId, Word>, l1: Map<ActorId, Word>, unreq: Set<(ActorId, ExecutionKind)>, k: ExecutionKind, ready0: bool)
+    requires ack_c(req, l0, unreq, k, ready0), bcast_last(l0, l1, req, Word::Invalidated),
+    ensures ack_c(req, l1, unreq, k, false),
+{
+    assert forall|r: ActorId| !unreq.contains((r, k)) implies ((#[trigger] l1.contains_key(r) && l1[r] is Ok) <==> (false && req.contains(r))) by {
+        if req.contains(r) {
+            assert(l1[r] == Word::Invalidated);
+        } else {
+            assert(l0.contains_key(r) == l1.contains_key(r));
+        }
+    }
+}
+/// telling an `Ok` word to every requester re-establishes AckInv for "ready"
+pub proof fn lemma_ack_bcast_ok(req: Set<ActorId>, l0: Map<ActorId, Word>, l1: Map<ActorId, Word>, unreq: Set<(ActorId, ExecutionKind)>, k: ExecutionKind, ready0: bool, w: Word)
+    requires ack_c(req, l0, unreq, k, ready0), bcast_last(l0, l1, req, w), w is Ok,
+    ensures ack_c(req, l1, unreq, k, true),
+{
+    assert forall|r: ActorId| !unreq.contains((r, k)) implies ((#[trigger] l1.contains_key(r) && l1[r] is Ok) <==> (true && req.contains(r))) by {
+        if req.contains(r) {
+            assert(l1[r] == w);
+        } else {
+            assert(l0.contains_key(r) == l1.contains_key(r));
+        }
+    }
 }
 
 /// every `Ok` of kind `k` this actor ever sent (latest per peer) carried `actual == a`, and no `Invalidated` of that kind is recorded
 pub open spec fn only_ok_actual(tr: Trace, k: ExecutionKind, a: bool) -> bool {
-    forall|r: ActorId| #![trigger tr.last.contains_key((r, k))]
-        tr.last.contains_key((r, k)) ==> (tr.last[(r, k)] matches Word::Ok { actual, .. } && actual == a)
+    forall|r: ActorId| #![trigger tr.lastk(k).contains_key(r)]
+        tr.lastk(k).contains_key(r) ==> (tr.lastk(k)[r] matches Word::Ok { actual, .. } && actual == a)
 }
 pub open spec fn oks_actual(tr: Trace, k: ExecutionKind, a: bool) -> bool {
-    forall|r: ActorId| #![trigger tr.last.contains_key((r, k))]
-        tr.last.contains_key((r, k)) ==> (tr.last[(r, k)] matches Word::Ok { actual, .. } ==> actual == a)
+    forall|r: ActorId| #![trigger tr.lastk(k).contains_key(r)]
+        tr.lastk(k).contains_key(r) ==> (tr.lastk(k)[r] matches Word::Ok { actual, .. } ==> actual == a)
 }
 
 /// [C04.request-deps] every dependency was asked for kind `k`
@@ -719,6 +766,7 @@ impl BuildTargetActor {
 //@fn src/engine/target_actor/build_target_actor.rs BuildTargetActor::run
 //@split-arms
 //@attr #[verifier::exec_allows_no_decreases_clause]
+//@attr #[verifier::spinoff_prover]
 //@contract
     requires
         old(self).helper.wf(),
@@ -728,7 +776,7 @@ impl BuildTargetActor {
         old(self).helper.un(ExecutionKind::Build) == old(self).helper.deps(),
         old(self).helper.un(ExecutionKind::Service) == old(self).helper.deps(),
         old(self).helper.target_id == old(tr).me,
-        old(tr).inlog.len() == 0, old(tr).last == Map::<(ActorId, ExecutionKind), Word>::empty(),
+        old(tr).inlog.len() == 0, old(tr).last_b == Map::<ActorId, Word>::empty() && old(tr).last_s == Map::<ActorId, Word>::empty(),
         old(tr).requested == Set::<(ActorId, ExecutionKind)>::empty(),
         old(tr).unreq == Set::<(ActorId, ExecutionKind)>::empty(),
         !old(tr).sent_unreq, !old(tr).sent_inval, !old(tr).term_seen, old(tr).ids_ok, old(tr).starts.len() == 0, old(tr).n_err == 0,
@@ -860,6 +908,7 @@ impl ServiceTargetActor {
 //@fn src/engine/target_actor/service_target_actor.rs ServiceTargetActor::run
 //@split-arms
 //@attr #[verifier::exec_allows_no_decreases_clause]
+//@attr #[verifier::spinoff_prover]
 //@contract
     requires
         old(self).helper.wf(),
@@ -870,7 +919,7 @@ impl ServiceTargetActor {
         old(self).helper.un(ExecutionKind::Service) == old(self).helper.deps(),
         old(self).helper.target_id == old(tr).me,
         old(self).service_process is None,
-        old(tr).inlog.len() == 0, old(tr).last == Map::<(ActorId, ExecutionKind), Word>::empty(),
+        old(tr).inlog.len() == 0, old(tr).last_b == Map::<ActorId, Word>::empty() && old(tr).last_s == Map::<ActorId, Word>::empty(),
         old(tr).requested == Set::<(ActorId, ExecutionKind)>::empty(),
         old(tr).unreq == Set::<(ActorId, ExecutionKind)>::empty(),
         old(tr).spawned == Set::<int>::empty(), old(tr).spawn_calls == 0,
@@ -943,8 +992,8 @@ pub fn select_aggregate(h: &TargetActorHelper, Tracked(tr): Tracked<&mut Trace>)
 
 /// [C11.agg-or, C20.actual] every `Ok` an aggregate sent carried `actual` = "some dependency had reported actual"
 pub open spec fn agg_actual_ok(tr: Trace, k: ExecutionKind) -> bool {
-    forall|r: ActorId| #![trigger tr.last.contains_key((r, k))]
-        tr.last.contains_key((r, k)) ==> (tr.last[(r, k)] matches Word::Ok { actual, dep_actual } ==> actual == dep_actual)
+    forall|r: ActorId| #![trigger tr.lastk(k).contains_key(r)]
+        tr.lastk(k).contains_key(r) ==> (tr.lastk(k)[r] matches Word::Ok { actual, dep_actual } ==> actual == dep_actual)
 }
 
 impl AggregateTargetActor {
@@ -956,6 +1005,7 @@ impl AggregateTargetActor {
 //@fn src/engine/target_actor/aggregate_target_actor.rs AggregateTargetActor::run
 //@split-arms
 //@attr #[verifier::exec_allows_no_decreases_clause]
+//@attr #[verifier::spinoff_prover]
 //@replace `HashMap::<ExecutionKind, _>::new()` => `HashMap::<ExecutionKind, HashSet<TargetId>>::new()` rule=R15 why=`inferred type argument written out (Verus needs the element type before the first insert)`
 //@contract
     requires
@@ -965,7 +1015,7 @@ impl AggregateTargetActor {
         old(self).helper.un(ExecutionKind::Build) == old(self).helper.deps(),
         old(self).helper.un(ExecutionKind::Service) == old(self).helper.deps(),
         old(self).helper.target_id == old(tr).me,
-        old(tr).inlog.len() == 0, old(tr).last == Map::<(ActorId, ExecutionKind), Word>::empty(),
+        old(tr).inlog.len() == 0, old(tr).last_b == Map::<ActorId, Word>::empty() && old(tr).last_s == Map::<ActorId, Word>::empty(),
         old(tr).requested == Set::<(ActorId, ExecutionKind)>::empty(),
         old(tr).unreq == Set::<(ActorId, ExecutionKind)>::empty(),
         !old(tr).sent_unreq, !old(tr).sent_inval, !old(tr).term_seen, old(tr).ids_ok, old(tr).n_err == 0,
@@ -1015,6 +1065,81 @@ impl AggregateTargetActor {
                     assert(tr.unreq.contains((requester, kind)));
                 }
             }
+//@before 0 `let removed = self.helper.unavailable_dependencies.get_mut(&kind).unwrap().remove(&target_id);`
+                            let ghost un_b0 = self.helper.un(ExecutionKind::Build);
+                            let ghost un_s0 = self.helper.un(ExecutionKind::Service);
+                            let ghost tr_pre = *tr;
+//@before 0 `if removed && self.helper.unavailable_dependencies[&kind].is_empty()`
+                            proof {
+                                if kind == ExecutionKind::Build {
+                                    assert(self.helper.un(ExecutionKind::Build) == un_b0.remove(target_id));
+                                    assert(self.helper.un(ExecutionKind::Service) == un_s0);
+                                    assert(removed == un_b0.contains(target_id));
+                                    assert(removed ==> un_b0.len() > 0);
+                                } else {
+                                    assert(kind == ExecutionKind::Service);
+                                    assert(self.helper.un(ExecutionKind::Service) == un_s0.remove(target_id));
+                                    assert(self.helper.un(ExecutionKind::Build) == un_b0);
+                                    assert(removed == un_s0.contains(target_id));
+                                    assert(removed ==> un_s0.len() > 0);
+                                }
+                                assert(tr.last_b == tr_pre.last_b && tr.last_s == tr_pre.last_s);
+                            }
+//@before 0 `let inserted = self.helper.unavailable_dependencies.get_mut(&kind).unwrap().insert(target_id.clone());`
+                            let ghost un_b1 = self.helper.un(ExecutionKind::Build);
+                            let ghost un_s1 = self.helper.un(ExecutionKind::Service);
+                            let ghost tr_pre1 = *tr;
+//@before 0 `if inserted && self.helper.unavailable_dependencies[&kind].len() == 1`
+                            proof {
+                                if kind == ExecutionKind::Build {
+                                    assert(self.helper.un(ExecutionKind::Build) == un_b1.insert(target_id));
+                                    assert(self.helper.un(ExecutionKind::Service) == un_s1);
+                                    assert(inserted == !un_b1.contains(target_id));
+                                    assert(inserted ==> self.helper.un(ExecutionKind::Build).len() == un_b1.len() + 1);
+                                    assert(!inserted ==> self.helper.un(ExecutionKind::Build) == un_b1);
+                                } else {
+                                    assert(kind == ExecutionKind::Service);
+                                    assert(self.helper.un(ExecutionKind::Service) == un_s1.insert(target_id));
+                                    assert(self.helper.un(ExecutionKind::Build) == un_b1);
+                                    assert(inserted == !un_s1.contains(target_id));
+                                    assert(inserted ==> self.helper.un(ExecutionKind::Service).len() == un_s1.len() + 1);
+                                    assert(!inserted ==> self.helper.un(ExecutionKind::Service) == un_s1);
+                                }
+                                assert(self.helper.un(kind).len() > 0);
+                                assert(tr.last_b == tr_pre1.last_b && tr.last_s == tr_pre1.last_s);
+                            }
+//@after 0 `if inserted && self.helper.unavailable_dependencies[&kind].len() == 1`
+                            proof {
+                                let sent = inserted && self.helper.un(kind).len() == 1;
+                                if kind == ExecutionKind::Build {
+                                    if sent {
+                                        lemma_ack_bcast_inval(self.helper.req(ExecutionKind::Build), tr_pre1.last_b, tr.last_b, tr.unreq, ExecutionKind::Build, un_b1.len() == 0);
+                                    } else {
+                                        assert(un_b1.len() > 0);
+                                    }
+                                } else {
+                                    if sent {
+                                        lemma_ack_bcast_inval(self.helper.req(ExecutionKind::Service), tr_pre1.last_s, tr.last_s, tr.unreq, ExecutionKind::Service, un_s1.len() == 0);
+                                    } else {
+                                        assert(un_s1.len() > 0);
+                                    }
+                                }
+                            }
+//@after 0 `if removed && self.helper.unavailable_dependencies[&kind].is_empty()`
+                            proof {
+                                let sent = removed && self.helper.un(kind).len() == 0;
+                                if kind == ExecutionKind::Build {
+                                    if sent {
+                                        lemma_ack_bcast_ok(self.helper.req(ExecutionKind::Build), tr_pre.last_b, tr.last_b, tr.unreq, ExecutionKind::Build, un_b0.len() == 0,
+                                            Word::Ok { actual: dependencies@[ExecutionKind::Build]@.len() != 0, dep_actual: actual_of(tr_pre.inlog, ExecutionKind::Build).len() > 0 });
+                                    }
+                                } else {
+                                    if sent {
+                                        lemma_ack_bcast_ok(self.helper.req(ExecutionKind::Service), tr_pre.last_s, tr.last_s, tr.unreq, ExecutionKind::Service, un_s0.len() == 0,
+                                            Word::Ok { actual: dependencies@[ExecutionKind::Service]@.len() != 0, dep_actual: actual_of(tr_pre.inlog, ExecutionKind::Service).len() > 0 });
+                                    }
+                                }
+                            }
 //@end
 }
 
